@@ -81,6 +81,13 @@ def run_stream(ctx, stream, progs, check_parse=True, nontrivial=None, keep_lines
     ast_lines = ['ast %s' % cps(s) for s in srcs]
     go = ctx.run_go(run_lines)
     ast = ctx.run_go(ast_lines)
+    # an operation that timed out or died in the parallel batch (a loaded machine is enough for that) is run again alone with a
+    # generous watchdog before it is judged; a real hang / crash answers the same again
+    for lines, answers in ((run_lines, go), (ast_lines, ast)):
+        for k, ans in enumerate(answers):
+            if ans.startswith(('timeout', 'crash')):
+                answers[k] = ctx.run_go([lines[k]], timeout_ms=30000, parallel=False)[0]
+                ctx.count(stream + ':rerun-alone')
     mlines, slines = [], []
     for a, i, sx in zip(ast, inputs, intended):
         if a.startswith('ok '):
@@ -221,12 +228,22 @@ def hand_exc():
 # =================================================================================================
 
 MARK = Func('记', ['号', '值'], [ExprS(Call('显示', [Var('号')])), Ret(Var('值'))])
+# numbers are changed in place by 自增 / 自减: a callee that bumps its input (only ever called with LITERAL arguments: what a
+# change made through a parameter does to the caller's variable is not fixed by any property)
+BUMP = Func('升', ['数', '步'], [Ret(MCall(Var('数'), [('自增', [Var('步')])]))])
+# methods whose literals are evaluated once per call
+MAKE_NUM = Func('造数', [], [Ret(MCall(Num('10'), [('自减', [Num('1')])]))])
+MAKE_LIST = Func('造列', [], [Decl(['内'], Arr([Num('0'), Arr([Num('5')])])),
+                              ExprS(MCall(Index(Var('内'), Num('1')), [('自增', [Num('1')])])),
+                              ExprS(MCall(Index(Index(Var('内'), Num('2')), Num('1')), [('自减', [Num('2')])])),
+                              Ret(Var('内'))])
 
 
 class G:
     def __init__(self, rng):
         self.rng = rng
         self.k = 0
+        self.bumps = 0.0     # share of number leaves that are `以 ‹literal›（自增/自减：k）` / （升：‹literal›、k） (needs BUMP in the prelude)
 
     def fresh(self):
         self.k += 1
@@ -238,7 +255,26 @@ class G:
         nv = [n for n, t in env.items() if t == 'num']
         if nv and r < 0.35:
             return Var(self.rng.choice(nv))
+        if self.bumps and self.rng.random() < self.bumps:
+            return self.bumped_literal()
         return Num(self.rng.choice(NUM_LITS))
+
+    def bumped_literal(self, step=None):
+        """a number literal that is changed in place right where it stands: as the receiver of 自增 / 自减, as the argument of a
+        callee that bumps its input, or as an item of a list / dictionary literal.  Its value is the literal's own value plus /
+        minus the step EVERY time the expression is evaluated."""
+        rng = self.rng
+        lit = Num(rng.choice(NUM_LITS))
+        step = step or Num(rng.choice(SMALL_INTS))
+        m = rng.choice(['自增', '自减'])
+        k = rng.random()
+        if k < 0.55:
+            return MCall(lit, [(m, [step])])
+        if k < 0.8:
+            return Call('升', [lit, step])
+        if k < 0.9:
+            return MCall(Index(Arr([Num(rng.choice(SMALL_INTS)), lit]), Num('2')), [(m, [step])])
+        return MCall(Index(Dict([(Var('a'), lit)]), Str('a')), [(m, [step])])
 
     def bool_leaf(self, env):
         bv = [n for n, t in env.items() if t == 'bool']
@@ -322,7 +358,7 @@ class G:
     def expr_program(self, depth):
         rng = self.rng
         env = {}
-        body = [MARK]
+        body = [MARK, BUMP]
         ins = {}
         inputs = []
         for n, v in (('数甲', 2.5), ('数乙', -0.0), ('数丙', float('nan')), ('数丁', float('inf'))):
@@ -342,7 +378,21 @@ class G:
             env['文'] = 'str'
         ill = rng.choice([0.0, 0.0, 0.05, 0.15])
         want = rng.choice(['num', 'bool', 'bool', 'num', 'any'])
-        body.append(Ret(self.expr(want, depth, env, ill)))
+        self.bumps = rng.choice([0.0, 0.05, 0.15])
+        try:
+            if rng.random() < 0.2:
+                # the same expression evaluated two or three times (loop body): it yields its documented value every time
+                env['次'] = 'num'
+                self.bumps = rng.choice([0.1, 0.2, 0.35])
+                e = self.expr(want, depth, env, ill)
+                body.append(Decl(['果'], Arr([])))
+                body.append(Iter(['次'], Arr([Num(str(i)) for i in range(1, rng.randint(2, 3) + 1)]),
+                                 [ExprS(MCall(Var('果'), [('后增', [e])]))]))
+                body.append(Ret(Var('果')))
+            else:
+                body.append(Ret(self.expr(want, depth, env, ill)))
+        finally:
+            self.bumps = 0.0
         return Program(inputs, body), ins
 
     # ---- statements (C02) --------------------------------------------------------------------------
@@ -500,8 +550,9 @@ class G:
         rng = self.rng
         body = [Class('盒', [('物', Arr([Num('1')])), ('名', Str('甲'))],
                       [Func('改名', ['新名'], [ExprS(Assign(This('名'), Var('新名')))]),
-                       Func('取名', [], [Ret(This('名'))])])]
-        shapes = {}   # name -> python shape for choosing valid paths: list/dict/scalar/obj
+                       Func('取名', [], [Ret(This('名'))])]),
+                BUMP, MAKE_NUM, MAKE_LIST]
+        shapes = {}   # name -> python shape for choosing valid paths: list/dict ('L'/'D' + items), number 'N', other scalar 'S', object 'O'
         names = []
 
         def shape_of(e):
@@ -509,7 +560,11 @@ class G:
                 return ['L'] + [shape_of(x) for x in e.items]
             if isinstance(e, Dict):
                 return ['D'] + [(k.name, shape_of(v)) for k, v in e.kvs]
-            return 'S'
+            return 'N' if isinstance(e, Num) else 'S'
+
+        def bump(target):
+            # numbers are changed in place by 自增 / 自减: one more mutator, applied to a variable, an item or a loop variable
+            return ExprS(MCall(target, [(rng.choice(['自增', '自减']), [Num(rng.choice(['1', '2', '5', '100']))])]))
 
         def show_all():
             return [ExprS(Call('显示', [Var(n) if shapes[n] != 'O' else Prop(Var(n), '名') for n in names] or [Num('0')]))]
@@ -550,9 +605,9 @@ class G:
                 import copy as _copy
                 k = rng.random()
                 if k < 0.4:
-                    lit, sh = Arr([Var(src), Num(str(self.fresh()))]), ['L', _copy.deepcopy(shapes[src]), 'S']
+                    lit, sh = Arr([Var(src), Num(str(self.fresh()))]), ['L', _copy.deepcopy(shapes[src]), 'N']
                 elif k < 0.7:
-                    lit, sh = Dict([(Var('a'), Var(src)), (Var('b'), Num('0'))]), ['D', ('a', _copy.deepcopy(shapes[src])), ('b', 'S')]
+                    lit, sh = Dict([(Var('a'), Var(src)), (Var('b'), Num('0'))]), ['D', ('a', _copy.deepcopy(shapes[src])), ('b', 'N')]
                 else:
                     lit, sh = Arr([Arr([Var(src)])]), ['L', ['L', _copy.deepcopy(shapes[src])]]
                 if rng.random() < 0.7 or len(names) < 2:
@@ -602,9 +657,9 @@ class G:
                         if m in ('后增', '前增'):
                             body.append(ExprS(MCall(pe, [(m, [Num(str(self.fresh()))])])))
                             if m == '后增':
-                                sh.append('S')
+                                sh.append('N')
                             else:
-                                sh.insert(1, 'S')
+                                sh.insert(1, 'N')
                         else:
                             body.append(ExprS(MCall(pe, [(m, [])])))
                             if len(sh) > 1:
@@ -616,38 +671,71 @@ class G:
                         k = rng.choice(KEYS)
                         body.append(ExprS(Assign(Index(pe, Str(k)), Num(str(self.fresh())))))
                         if not any(kk == k for kk, _ in sh[1:]):
-                            sh.append((k, 'S'))
+                            sh.append((k, 'N'))
                         else:
                             for i in range(1, len(sh)):
                                 if sh[i][0] == k:
-                                    sh[i] = (k, 'S')
+                                    sh[i] = (k, 'N')
+                    elif sh == 'N' and rng.random() < 0.65:
+                        # a number held by a variable or stored at any depth of a container: changed in place
+                        body.append(bump(pe))
                     elif isinstance(pe, Index):
                         body.append(ExprS(Assign(pe, Num(str(self.fresh())))))
+                        self._set_shape(shapes, dst, pe, 'N')
             elif r < 0.82:    # loop variable copies
-                cands = [n for n in names if isinstance(shapes[n], list) and len(shapes[n]) > 1 and
-                         any(isinstance(x, list) or (isinstance(x, tuple) and isinstance(x[1], list)) for x in shapes[n][1:])]
+                cands = [n for n in names if isinstance(shapes[n], list) and len(shapes[n]) > 1]
                 if cands:
                     c = rng.choice(cands)
                     lv = '环%d' % self.fresh()
                     # mutate through the loop variable: the iterated collection must not change
                     elems = [x if not isinstance(x, tuple) else x[1] for x in shapes[c][1:]]
+                    muts = []
                     if all(isinstance(x, list) and x[0] == 'L' for x in elems):
-                        mut = ExprS(MCall(Var(lv), [('后增', [Num(str(self.fresh()))])]))
+                        muts.append(ExprS(MCall(Var(lv), [('后增', [Num(str(self.fresh()))])])))
+                        if all(len(x) > 1 and x[1] == 'N' for x in elems):
+                            muts.append(bump(Index(Var(lv), Num('1'))))
+                        if all(len(x) > 1 and isinstance(x[1], list) and x[1][0] == 'L' and len(x[1]) > 1 and x[1][1] == 'N' for x in elems):
+                            muts.append(bump(Index(Index(Var(lv), Num('1')), Num('1'))))
                     elif all(isinstance(x, list) and x[0] == 'D' for x in elems):
-                        mut = ExprS(Assign(Index(Var(lv), Str('新')), Num(str(self.fresh()))))
+                        muts.append(ExprS(Assign(Index(Var(lv), Str('新')), Num(str(self.fresh())))))
+                        common = [k for k in KEYS if all(any(kk == k and vv == 'N' for kk, vv in x[1:]) for x in elems)]
+                        if common:
+                            muts.append(bump(Index(Var(lv), Str(rng.choice(common)))))
+                    elif all(x == 'N' for x in elems):
+                        muts.append(bump(Var(lv)))
+                    if not muts or rng.random() < 0.15:
+                        muts = [ExprS(Assign(Var(lv), Num(str(self.fresh()))))]
+                    loopvars = [lv]
+                    if shapes[c][0] == 'L' and rng.random() < 0.3:
+                        # two-variable form; the position handed out by the loop is a number like any other
+                        iv = '位%d' % self.fresh()
+                        loopvars = [iv, lv]
+                        muts = [rng.choice(muts), bump(Var(iv))]
                     else:
-                        mut = ExprS(Assign(Var(lv), Num(str(self.fresh()))))
-                    body.append(Iter([lv], Var(c), [mut, ExprS(Call('显示', [Var(lv)]))]))
-            else:             # literal evaluated twice in a loop must be fresh each time
-                acc = new_name()
-                shapes[acc] = ['L']
-                body.append(Decl([acc], Arr([])))
+                        muts = [rng.choice(muts)]
+                    body.append(Iter(loopvars, Var(c), muts + [ExprS(Call('显示', [Var(v) for v in loopvars]))]))
+            else:             # literals evaluated repeatedly (loop body, method called several times) must be fresh each time
+                k = rng.random()
                 lv = '次%d' % self.fresh()
-                tmp = '新%d' % self.fresh()
-                body.append(Iter([lv], Arr([Num('1'), Num('2')]),
-                                 [Decl([tmp], Arr([Num('0')])),
-                                  ExprS(MCall(Var(tmp), [('后增', [Var(lv)])])),
-                                  ExprS(Call('显示', [Var(tmp)]))]))
+                passes = Arr([Num(str(i)) for i in range(1, rng.randint(2, 3) + 1)])
+                if k < 0.3:
+                    tmp = '新%d' % self.fresh()
+                    lit = rng.choice([Arr([Num('0')]), Arr([Num('0'), Arr([Num('7')])]), Dict([(Var('a'), Num('0'))])])
+                    if isinstance(lit, Dict):
+                        mut = rng.choice([ExprS(Assign(Index(Var(tmp), Str('b')), Var(lv))), bump(Index(Var(tmp), Str('a')))])
+                    else:
+                        mut = rng.choice([ExprS(MCall(Var(tmp), [('后增', [Var(lv)])])), bump(Index(Var(tmp), Num('1')))] +
+                                         ([bump(Index(Index(Var(tmp), Num('2')), Num('1')))] if len(lit.items) > 1 else []))
+                    body.append(Iter([lv], passes, [Decl([tmp], lit), mut, ExprS(Call('显示', [Var(tmp)]))]))
+                elif k < 0.75:
+                    # a number literal changed in place where it stands (receiver, bumped argument, item of a literal)
+                    step = Var(lv) if rng.random() < 0.3 else None
+                    shown = [self.bumped_literal(step) for _ in range(rng.randint(1, 2))]
+                    body.append(Iter([lv], passes, [ExprS(Call('显示', shown))]))
+                else:
+                    # the literals of a method body, once per call
+                    f = rng.choice(['造数', '造列'])
+                    body.append(ExprS(Call('显示', [Call(f, []) for _ in range(rng.randint(2, 3))])))
             body += show_all()
         return Program([], body), {}
 
@@ -710,6 +798,35 @@ class G:
                                           [rng.choice([Throw('异常', [Str('底')]), ExprS(Call('显示', [Bin('/', Num('1'), Num('0'))])),
                                                        ExprS(MCall(Num('1'), [('无此法', [])]))])]),
                                         Ret(Bin('+', Num('1'), Call('坠', [Bin('-', Var('深'), Num('1'))])))]))
+        # recursion THROUGH AN ARGUMENT of a call with several arguments: 累(N) = （并：…、（累：N - 1）、…） with the recursive call at
+        # a random argument position (the earlier arguments of the outer call are already evaluated when the same call
+        # expression is entered again), the two-argument classic 阿 (Ackermann), a recursive constructor call and — below — the
+        # same through methods of an object.  并 / 其并 show and combine their inputs position-sensitively.
+        comb_ar = rng.randint(2, 3)
+        cps_ = ['甲', '乙', '丙'][:comb_ar]
+        weigh = lambda vs: Bin('+', Bin('+', Bin('*', vs[0], Num('100')), Bin('*', vs[1], Num('10'))), vs[2]) if len(vs) == 3 \
+            else Bin('-', Bin('*', vs[0], Num('10')), vs[1])
+        body.append(Func('并', cps_, [ExprS(Call('显示', [Str('并')] + [Var(p) for p in cps_])), Ret(weigh([Var(p) for p in cps_]))]))
+
+        def rec_args(self_call):
+            # at least one recursive call, at a random position; the other positions mention the depth or a constant
+            pos = rng.randrange(comb_ar) if rng.random() < 0.25 else rng.randrange(1, comb_ar)
+            out = []
+            for i in range(comb_ar):
+                if i == pos or rng.random() < 0.15:
+                    out.append(self_call())
+                else:
+                    out.append(rng.choice([Var('深'), Var('深'), Bin('*', Var('深'), Num('2')), Num(rng.choice(SMALL_INTS))]))
+            return out
+        body.append(Func('累', ['深'], [If(Bin('le', Var('深'), Num('0')), [Ret(Num(rng.choice(['0', '1'])))]),
+                                        Ret(Call('并', rec_args(lambda: Call('累', [Bin('-', Var('深'), Num('1'))]))))]))
+        body.append(Func('阿', ['上', '右'], [If(Bin('eq', Var('上'), Num('0')), [Ret(Bin('+', Var('右'), Num('1')))]),
+                                             If(Bin('eq', Var('右'), Num('0')), [Ret(Call('阿', [Bin('-', Var('上'), Num('1')), Num('1')]))]),
+                                             Ret(Call('阿', [Bin('-', Var('上'), Num('1')), Call('阿', [Var('上'), Bin('-', Var('右'), Num('1'))])]))]))
+        body.append(Class('对', [('左', Num('0')), ('右', Var('空'))], []))
+        body.append(Func('对', ['初左', '初右'], [ExprS(Assign(This('左'), Var('初左'))), ExprS(Assign(This('右'), Var('初右')))], ctor=True))
+        body.append(Func('串', ['深'], [If(Bin('le', Var('深'), Num('0')), [Ret(Var('空'))]),
+                                        Ret(New('对', [Var('深'), Call('串', [Bin('-', Var('深'), Num('1'))])]))]))
         # a type with defaults, constructor, methods
         body.append(Class('点', [('横', Num('1')), ('竖', Arr([Num('0')])), ('下', Var('空')),
                                  ('格', Arr([Arr([Num('0'), Num('0')]), Arr([Num('0'), Num('0')])])),
@@ -730,7 +847,12 @@ class G:
                                               ExprS(Assign(This('横'), Bin('+', This('横'), Num('100')))),
                                               Ret(Arr([Var('果'), This('横')]))]),
                            Func('守', ['深'], [ExprS(Call('显示', [Str('守'), This('横')])), Ret(Call('坠', [Var('深')]))],
-                                [('异常', [ExprS(Call('显示', [Str('守拦')])), Ret(Num('-1'))])])],
+                                [('异常', [ExprS(Call('显示', [Str('守拦')])), Ret(Num('-1'))])]),
+                           Func('并', cps_, [ExprS(Call('显示', [Str('其并')] + [Var(p) for p in cps_])),
+                                            Ret(Bin('+', weigh([Var(p) for p in cps_]), This('横')))]),
+                           Func('累', ['深'], [If(Bin('le', Var('深'), Num('0')), [Ret(Num('0'))]),
+                                               Ret(MCall(This('自身'), [('并', rec_args(
+                                                   lambda: MCall(This('自身'), [('累', [Bin('-', Var('深'), Num('1'))])])))]))])],
                           # 何为 … ？ blocks are part of the grammar (they are compiled and stored; nothing reads them: the name
                           # stays an unknown property)
                           getters=([Func('和', [], [Ret(Bin('+', This('横'), Num('1')))], getter=True)] if rng.random() < 0.4 else [])))
@@ -769,8 +891,23 @@ class G:
                     main.append(ExprS(Call('显示', [Var(y)])))
                 else:
                     main.append(ExprS(Call('显示', [Call(fn, args)])))
-            elif r < 0.4:
+            elif r < 0.36:
                 main.append(ExprS(Call('显示', [Call('递', [Num(str(depth))])])))
+            elif r < 0.43:
+                k = rng.random()
+                if k < 0.45:
+                    main.append(ExprS(Call('显示', [Call('累', [Num(str(rng.randint(0, 5)))])])))
+                elif k < 0.7:
+                    main.append(ExprS(Call('显示', [Call('阿', [Num(str(rng.randint(0, 2))), Num(str(rng.randint(0, 3)))])])))
+                else:
+                    d = rng.randint(0, 4)
+                    c = '链%d' % self.fresh()
+                    main.append(Decl([c], Call('串', [Num(str(d))])))
+                    e, shown = Var(c), []
+                    for _ in range(d):
+                        shown.append(Prop(e, '左'))
+                        e = Prop(e, '右')
+                    main.append(ExprS(Call('显示', shown + [e])))
             elif r < 0.6:
                 o = '体%d' % self.fresh()
                 k = ctor_ar if rng.random() < 0.9 else ctor_ar + 1
@@ -781,8 +918,10 @@ class G:
                 k = rng.random()
                 if k < 0.3:
                     main.append(ExprS(Call('显示', [MCall(Var(o), [('移', [Num(rng.choice(SMALL_INTS))])])])))
-                elif k < 0.42:
+                elif k < 0.36:
                     main.append(ExprS(Call('显示', [MCall(Var(o), [('叠', [Num(str(self.fresh()))])])])))
+                elif k < 0.42:
+                    main.append(ExprS(Call('显示', [MCall(Var(o), [('累', [Num(str(rng.randint(0, 5)))])])])))
                 elif k < 0.5:
                     main.append(ExprS(Call('显示', [MCall(Var(o), [('落子', [Num(str(rng.randint(1, 2))), Num(str(rng.randint(1, 2))), Num(str(self.fresh()))])]),
                                                   MCall(Var(o), [('记', [Num(str(self.fresh()))])])])))
@@ -1092,10 +1231,40 @@ class G:
                     body.append(Decl([n], Var(d)))
                     dicts.append(n)
                     ks[n] = list(ks[d])
-            elif r < 0.95:
+            elif r < 0.93:
                 body.append(Iter(['键', '值'], Var(d), [ExprS(Call('显示', [Var('键'), Var('值')]))]))
-            else:
+            elif r < 0.96:
                 body.append(Iter(['序', '项'], Var(l), [ExprS(Call('显示', [Var('序'), Var('项')]))]))
+            elif r < 0.985:
+                # the loop body changes the very list that is being traversed: the passes are those of the list as it was when the
+                # loop started (positions 1..n, its items in order), and afterwards the list is what the body's operations made of
+                # it.  One body either only removes or only adds (a body that does both can write a new item into a place the
+                # traversal has not visited yet: which item that pass then sees is not fixed by the property).
+                n = ln[l]
+                when = rng.randint(1, n + 1) if rng.random() < 0.6 else None     # only in that pass / in every pass
+                times = n if when is None else (1 if when <= n else 0)
+                if rng.random() < 0.5:
+                    op = ExprS(Call('显示', [MCall(Var(l), [(rng.choice(['左移', '右移']), [])])]))
+                    ln[l] = max(0, n - times)
+                else:
+                    k = rng.random()
+                    if k < 0.7:
+                        op = ExprS(MCall(Var(l), [(rng.choice(['后增', '前增']), [val() if rng.random() < 0.5 else Var('项')])]))
+                        ln[l] = n + times
+                    else:
+                        op = ExprS(MCall(Var(l), [('合并', [Arr([val(), Var('序')])])]))
+                        ln[l] = n + 2 * times
+                inner = [op] if when is None else [If(Bin('eq', Var('序'), Num(str(when))), [op])]
+                body.append(Iter(['序', '项'], Var(l), [ExprS(Call('显示', [Var('序'), Var('项')]))] + inner +
+                                 [ExprS(Call('显示', [Prop(Var(l), '长度')]))]))
+            else:
+                # the dictionary analogue: new keys written into the traversed dictionary are appended after its present keys and
+                # are not visited by the running loop
+                tag = '+%d' % self.fresh()
+                body.append(Iter(['键', '值'], Var(d), [ExprS(Call('显示', [Var('键'), Var('值')])),
+                                                       ExprS(MCall(Var(d), [('写入', [MCall(Var('键'), [('拼接', [Str(tag)])]), Var('值')])])),
+                                                       ExprS(Call('显示', [Prop(Var(d), '长度')]))]))
+                ks[d] += [k + tag for k in ks[d]]
             body += observe()
         return Program([], body), {}
 
